@@ -258,6 +258,67 @@ def literal_zoo_case(rng, counters, violations):
             return
 
 
+def mode_case(rng, counters, violations):
+    """The manager's MODE travels with it: a manager pickled while its tree is frozen (or frozen and released again)
+    restores to a copy that accepts and refuses exactly the assignments the original accepts and refuses, with the same
+    contents after each of them."""
+    import xdeps
+    m = xdeps.Manager()
+    d = {"a": 1.0, "b": 2.0, "k": [1.0, 2.0, 3.0], "c": 0.0, "e": 0.0}
+    r = m.ref(d, "r")
+    r["c"] = r["a"] * rng.choice([2, 3]) + r["b"]
+    r["e"] = r["c"] - r["k"][rng.randrange(3)]
+    mode = rng.choice(["frozen", "frozen", "released", "never"])
+    if mode in ("frozen", "released"):
+        m.freeze_tree()
+    if mode == "released":
+        m.unfreeze_tree()
+    try:
+        m2 = pickle.loads(pickle.dumps(m))
+    except Exception as exc:
+        violations.append({"what": "C12 pickling a manager (%s) raised %s: %s" % (mode, type(exc).__name__, exc)})
+        return
+    r2 = m2.containers["r"]
+    counters["mode_cases_" + mode] = counters.get("mode_cases_" + mode, 0) + 1
+    log = [["mode", mode]]
+    fups = []
+    for _ in range(rng.randrange(4, 9)):
+        kind = rng.choice(["val", "val", "expr_new", "expr_redef", "val_over_expr", "iop", "unfreeze", "freeze"])
+        fups.append((kind, rng.choice(["a", "b"]), rng.choice([0.5, 4.0, -1.5, 7.0]), rng.choice(["g", "h"])))
+    for kind, nm, v, tgt in fups:
+        out = []
+        for mm, rr in ((m, r), (m2, r2)):
+            try:
+                if kind == "val":
+                    rr[nm] = v
+                elif kind == "expr_new":
+                    rr[tgt] = rr["a"] + rr["b"] * v
+                elif kind == "expr_redef":
+                    rr["c"] = rr["b"] * v
+                elif kind == "val_over_expr":
+                    rr["e"] = v
+                elif kind == "iop":
+                    rr[nm] += v
+                elif kind == "unfreeze":
+                    mm.unfreeze_tree()
+                else:
+                    mm.freeze_tree()
+                res = "accepted"
+            except ValueError:
+                res = "ValueError"
+            except Exception as exc:
+                res = type(exc).__name__
+            out.append((res, sorted((k, canon(x)) for k, x in rr._owner.items()), sorted(map(str, mm.dump()))))
+        log.append([kind, nm, v, tgt, out[0][0], out[1][0]])
+        counters["mirrored_followups"] = counters.get("mirrored_followups", 0) + 1
+        counters["mode_followups_" + out[0][0]] = counters.get("mode_followups_" + out[0][0], 0) + 1
+        if out[0] != out[1]:
+            what = "outcome" if out[0][0] != out[1][0] else ("contents" if out[0][1] != out[1][1] else "definitions")
+            violations.append({"what": "C12 manager pickled in mode '%s': follow-up %s -> original %s, restored copy %s; %s differ" % (
+                mode, kind, out[0][0], out[1][0], what), "ops": log})
+            return
+
+
 def run_shard(spec):
     rng = random.Random("C12:%s:%s" % (spec["seed"], spec["shard"]))
     mgrmon.install_run_events()
@@ -273,6 +334,10 @@ def run_shard(spec):
         if violations:
             break
         literal_zoo_case(rng, counters, violations)
+    for n in range(60):
+        if violations:
+            break
+        mode_case(rng, counters, violations)
     for n in range(spec["managers"] if not spec.get("replay") else 40):
         hg = gen.HistoryGen(rng, layered=True, depth=rng.choice([2, 3, 4]), profile=PROFILE, weights=W)
         ls = lockstep.LockStep(hg.world)
